@@ -10,7 +10,7 @@ CONFIG = {
         "names_unique", "released_once",
     ],
     "harnesses": [
-        {"cmd": "idle", "cases_quick": 400, "cases_thorough": 12000, "shards_quick": 8, "shards_thorough": 32, "race": True},
+        {"cmd": "idle", "cases_quick": 400, "cases_thorough": 8000, "shards_quick": 8, "shards_thorough": 32, "race": True},
     ],
     "trusted_base": [
         "hand-written model coq/theories/Idle/Model.v of idle_invoker.go (one event = one critical section of i.lock; wakeup channels as generation numbers), tied by correspondence harness/cmd/idle",
